@@ -210,9 +210,26 @@ pub fn canon_script(s: &str) -> Vec<String> {
     v
 }
 
+thread_local! {
+    /// When set, `build` loads the rules as several lists with different permission masks, the
+    /// scriptlet rules once more under a third mask (the same rule reaching the engine through two
+    /// lists that differ only in what they are allowed to inject).
+    pub static MULTI_LIST: std::cell::Cell<bool> = std::cell::Cell::new(false);
+}
 pub fn build(rules: &[String], debug: bool, optimize: bool, perm: u8) -> Engine {
-    let opts = ParseOptions { permissions: PermissionMask::from_bits(perm), ..Default::default() };
-    let mut e = Engine::from_rules_parametrised(rules.iter(), opts, debug, optimize);
+    let mut e = if MULTI_LIST.with(|m| m.get()) {
+        let mut fs = adblock::lists::FilterSet::new(debug);
+        let k = rules.len() / 2;
+        let mask = |b: u8| ParseOptions { permissions: PermissionMask::from_bits(b), ..Default::default() };
+        fs.add_filters(rules[..k].iter(), mask(1));
+        fs.add_filters(rules[k..].iter(), mask(2));
+        let js: Vec<&String> = rules.iter().filter(|l| l.contains("+js(")).collect();
+        fs.add_filters(js.into_iter(), mask(3));
+        Engine::from_filter_set(fs, optimize)
+    } else {
+        let opts = ParseOptions { permissions: PermissionMask::from_bits(perm), ..Default::default() };
+        Engine::from_rules_parametrised(rules.iter(), opts, debug, optimize)
+    };
     e.use_resources(resources());
     e
 }
